@@ -119,6 +119,9 @@ func (m *Machine) builtin(b *ssa.Builtin, args []Val, cc *ssa.CallCommon) Val {
 			}
 		}
 		return nil
+	case "recover":
+		// panics end the path (they are reported, never recovered): a deferred recover() only ever sees nil
+		return Iface{}
 	case "min", "max":
 		x, y := args[0].(*Term), args[1].(*Term)
 		signed := isSigned(cc.Args[0].Type())
@@ -132,6 +135,9 @@ func (m *Machine) builtin(b *ssa.Builtin, args []Val, cc *ssa.CallCommon) Val {
 			return Ite(lt, x, y)
 		}
 		return Ite(lt, y, x)
+	}
+	if len(args) == 0 {
+		endPath("UNSUPPORTED", "builtin %s()", b.Name())
 	}
 	endPath("UNSUPPORTED", "builtin %s(%T)", b.Name(), args[0])
 	return nil
